@@ -20,11 +20,11 @@ def startTop (s : St) (t : Nat) (op : TopOp) : St :=
   | .poll => s.push [.poll]
   | .frameEnd => s.push [.gc, .poll]
   | .wSysEvent sys ty pid =>
-    let (d, s) := s.fresh
+    let (d, s) := (s.emit (.send pid)).fresh
     let s := { s with data := upd s.data d (some { kind := .sys, ty := ty, pid := pid, target := 0, cnt := 0, taken := false }) }
     applyCmd s (.sysEvent sys d)
-  | .wBroadcast ty pid => applyCmd s (.broadcast ty pid)
-  | .wEntityEvent e ty pid => applyCmd s (.entityEvent e ty pid)
+  | .wBroadcast ty pid => applyCmd (s.emit (.send pid)) (.broadcast ty pid)
+  | .wEntityEvent e ty pid => applyCmd (s.emit (.send pid)) (.entityEvent e ty pid)
   | .sigPrepare e =>
     let (a, s) := newArc s e
     { s with sigs := s.sigs ++ [a] }
